@@ -26,7 +26,7 @@ func (m Mode) String() string {
 	return m.Env + "+noopt"
 }
 
-var sampleMap = henv.AsMap(henv.Make(henv.Val{}))
+var sampleMap = henv.AsMap(henv.MakeFull(henv.Val{}))
 
 // AllModes are the eight compile modes of C01.
 var AllModes = []Mode{{"struct", true}, {"struct", false}, {"ptr", true}, {"ptr", false}, {"map", true}, {"map", false}, {"noenv", true}, {"noenv", false}}
@@ -66,15 +66,19 @@ type PanicError struct{ Msg string }
 
 func (p *PanicError) Error() string { return "PANIC: " + p.Msg }
 
-// RunEnv returns the value to pass to Run for the mode.
-func (m Mode) RunEnv(e *henv.Env) interface{} {
+// RunEnv returns the value to pass to Run for the mode; names are the members the
+// program mentions (a map environment is built with exactly those).
+func (m Mode) RunEnv(e *henv.Env, names []string) interface{} {
 	switch m.Env {
 	case "struct", "noenv", "eval":
 		return *e
 	case "ptr":
 		return e
 	}
-	return henv.AsMap(e)
+	if names == nil {
+		return henv.AsMap(e)
+	}
+	return henv.AsMapOnly(e, names)
 }
 
 // Run runs the program; a panic is turned into a PanicError.
